@@ -858,8 +858,10 @@ impl<'a> Interp<'a> {
                 Ok(m)
             }
             Err(Ctl::Throw(v)) => {
-                // (X) a module body that throws is outside the alphabet; keep the frame for the trace
+                // the module stays registered as "being loaded"; importing it again is outside the
+                // alphabet (X).  The trace was captured when the value was thrown.
                 self.event("module_body_threw");
+                self.frames.pop();
                 Err(Ctl::Throw(v))
             }
             Err(e) => Err(e),
